@@ -157,6 +157,11 @@ func PanicSafetyWith(c *Ctx, rule string, entries []*ssa.Function, cut func(*ssa
 				c.OK(rule, construct, c.at(s.at), "under a recover frame on every call chain from the entry")
 				continue
 			}
+			if ok, why := genericJustify(p, f, s.at); ok {
+				c.OK(rule, construct, c.at(s.at), "justified (structural): "+why)
+				just++
+				continue
+			}
 			var hit *panicJustification
 			for k := range table {
 				if table[k].fn == shortFn(f) && strings.Contains(s.what, table[k].match) {
